@@ -109,6 +109,7 @@ func init() {
 		"path/filepath.Dir":  pathDir,
 		"path/filepath.Ext":  pathExt,
 		"io.WriteString": ioWriteString,
+		"bytes.IndexByte": bytesIndexByte,
 		"github.com/logrusorgru/aurora.Cyan":  auroraWrap,
 		"github.com/logrusorgru/aurora.Green": auroraWrap,
 		"github.com/logrusorgru/aurora.Red":   auroraWrap,
@@ -1330,4 +1331,23 @@ func pathExt(c *CallCtx) (Value, bool) {
 func auroraWrap(c *CallCtx) (Value, bool) {
 	// colours are presentation only: the wrapped value is passed through
 	return c.args[0], true
+}
+
+// bytes.IndexByte without forking: ite(b0==c, 0, ite(b1==c, 1, ... -1)).
+func bytesIndexByte(c *CallCtx) (Value, bool) {
+	e, st, ts := c.e, c.st, c.e.ts
+	sl := c.args[0].(SliceV)
+	ch := c.args[1].(*Term)
+	bt := types.Typ[types.Uint8]
+	mx := e.maxLenOf(st, sl, 1)
+	if sl.Len.IsConst() {
+		mx = int(sl.Len.BV)
+	}
+	res := ts.Int(-1)
+	for i := mx - 1; i >= 0; i-- {
+		b := e.load(st, e.ptrAdd(sl.P, i), bt).(*Term)
+		hit := ts.And(ts.BvCmp(OBvSlt, ts.Int(int64(i)), sl.Len), ts.Eq(b, ch))
+		res = ts.Ite(hit, ts.Int(int64(i)), res)
+	}
+	return res, true
 }
